@@ -436,6 +436,14 @@ func (ft *funcTrans) instr(in ssa.Instruction) {
 		t := ft.termOf(x.X)
 		ft.define(x, Term{t.S, w.sortOf(x.Type())})
 	case *ssa.MakeInterface:
+		if g, ok := x.X.(*ssa.Global); ok {
+			// &global boxed into an interface (json.Unmarshal(data, &table)): an opaque address; what the
+			// callee may do through it is said by naming the global in its assigns clause
+			a := w.declConst("gaddr_"+g.Pkg.Pkg.Name()+"."+g.Name(), &Sort{Name: "Int", Kind: KRef, Go: g.Type()})
+			w.addFact(fmt.Sprintf("(< %s 0)", a.S)) // not an allocated object
+			ft.define(x, Term{fmt.Sprintf("(mk-iface %d %s)", w.typeID(g.Type()), a.S), &Sort{Name: "Iface", Kind: KIface}})
+			return
+		}
 		t := ft.termOf(x.X)
 		ft.define(x, ft.makeIface(t, x.X.Type()))
 	case *ssa.TypeAssert:
